@@ -9,11 +9,11 @@ LEVEL = 'exploration'
 TIERS = {'quick': 12000, 'thorough': 600000}
 RULE = ('seeded sessions of 1-6 ops from {shell, exec_out, root, streaming_shell} x decode, device output 0..3*maxdata bytes over '
         'utf8/invalid-utf8/binary alphabets cut into 0..n WRTE payloads (empty payloads and cuts inside multi-byte sequences included), '
-        'every read fragmentation policy, strict/eager close, sync and async; non-trivial = some command had >= 2 payloads and >= 1 read was '
+        'every read fragmentation policy, strict/eager close, sync and async; in 12% of the sessions the link dies for good at one transport call (a cut-off command may raise, never return a part); non-trivial = some command had >= 2 payloads and >= 1 read was '
         'fragmented; distinct = distinct event-log digests')
 ASSUMPTIONS = ['the device model emits only behaviour a conforming adbd can show (DESIGN 2.3)',
                'expected text is bytes.decode("utf8","backslashreplace") computed by the harness, not by adb_shell']
-EXPECT_PROBES = {'all': ['frag_reads', 'hdr_split', 'payload_split', 'empty_payload_wrte', 'utf8_split_across_wrte']}
+EXPECT_PROBES = {'all': ['frag_reads', 'hdr_split', 'payload_split', 'empty_payload_wrte', 'utf8_split_across_wrte', 'c01_link_died_mid_command']}
 KINDS = ['shell', 'shell', 'exec_out', 'streaming_shell', 'streaming_shell', 'root']
 OWN = ('wrong-result', 'unexpected-exception', 'timeout-instead-of-result', 'missing-exception', 'wrong-exception', 'hang', 'no-termination', 'deadlock')
 
@@ -22,6 +22,10 @@ def generate(seed, tier):
     big = 20000 if tier == 'quick' else 200000
     g = Gen(seed)
     scn = S.session(g.int(0, 1 << 60), KINDS, nmax=6, big=big)
+    if g.chance(0.12):
+        # the link dies somewhere in the session (RST / EOF / EIO at one transport call, for good): a command cut off before the
+        # device closed its stream has no result -- it may raise anything, it must not return the part that happened to arrive
+        scn['config']['faults'] = [{'at': g.int(4, 60), 'kind': g.pick(['reset', 'eof', 'oserror']), 'persistent': True}]
     return {'seed': seed, 'scn': scn}
 
 
@@ -37,7 +41,19 @@ def evaluate(case, tapes=None):
     scn = case['scn']
     run, tape = run_scn(case, 'scn', 0, tapes)
     absorb(out, run, tape)
-    probs = O.check_session(run, scn) + termination(run)
+    fired = run.link.faults_fired
+    if fired:
+        victim = len(run.results[0])
+        for i, rec in enumerate(run.results[0]):
+            if rec['calls0'] <= fired[0][0] < rec.get('calls1', 1 << 60):
+                victim = i
+                break
+        out['probes']['c01_link_died_mid_session'] = 1
+        if victim < len(run.results[0]) and run.results[0][victim]['op'] != 'connect':
+            out['probes']['c01_link_died_mid_command'] = 1
+        probs = [p for p in O.check_session(run, scn, relaxed_from=victim) if p[0] == 'wrong-result'] + termination(run)
+    else:
+        probs = O.check_session(run, scn) + termination(run)
     out['violations'] = [p for p in probs if p[0] in OWN]
     out['notes'] = [p for p in O.monitors(run) if p]
     multi = False
